@@ -20,6 +20,7 @@ from pyvc.types import *
 from .common import *
 
 import mypy.find_sources as FS
+from .spec_paths import FakeFsCache
 
 PKG = z3.Function("PKG", StrS, StrS, StrS, BoolS)
 SPLIT_P = z3.Function("os_split_parent", StrS, StrS)
@@ -170,6 +171,80 @@ def ens_strip_py(I, env, res):
     return z3.Or(z3.And(z3.SuffixOf(pyi, a), z3.Concat(r.t, pyi) == a), z3.And(z3.Not(z3.SuffixOf(pyi, a)), z3.SuffixOf(py, a), z3.Concat(r.t, py) == a))
 
 
+# ------------------------------------------------------------------ find_sources_in_dir: one directory entry
+
+JOINP = z3.Function("os_path_join", StrS, StrS, StrS)
+STEM = z3.Function("os_splitext_stem", StrS, StrS)
+SUFFIX = z3.Function("os_splitext_suffix", StrS, StrS)
+ISDIR = z3.Function("fs_isdir", StrS, BoolS)
+
+
+def sub_sources_contract(I, args, kwargs):
+    """find_sources_in_dir(subdir) at the recursive call: some list of sources, possibly empty"""
+    from mypy.modulefinder import BuildSource
+
+    if I.ctx.choose(2, "sub-sources") == 0:
+        I.ctx.ghost["sub"] = "empty"
+        return SList([])
+    I.ctx.ghost["sub"] = "nonempty"
+    return SList([I.make(TObj(BuildSource), "sub_source")])
+
+
+def crawl_up_contract(I, args, kwargs):
+    mod, base = I.make(TStr(), "module"), I.make(TStr(), "base_dir")
+    I.ctx.ghost["crawled"] = (args[1], mod, base)
+    return STuple([mod, base])
+
+
+def setup_dir_entry(I):
+    self = I.make(TObj(FS.SourceFinder), "self")
+    name, path = I.make(TStr(), "name"), I.make(TStr(), "path")
+    seen = I.make(TSet(TStr()), "seen")
+    sources = SList([])
+    return {"args": [], "locals": {"self": self, "name": name, "path": path, "seen": seen, "sources": sources, "names": I.make(TSeq(TStr()), "names")},
+            "self": self, "name": name, "path": path, "seen": seen, "seen0": seen.t, "sources": sources}
+
+
+def ens_dir_entry(I, env, res):
+    """one directory entry: a sub-directory contributes its sources and claims its name only if it HAS
+    sources; a .py/.pyi file is added (under the module crawl_up assigns) unless an earlier
+    source-bearing entry claimed its stem, and then claims the stem; anything else changes nothing"""
+    name = env["name"].t
+    sub = JOINP(env["path"].t, name)
+    seen1, seen0 = env["seen"].t, env["seen0"]
+    srcs = env["sources"].items
+    x = z3.Const("other_name", StrS)
+
+    def seen_is(extra):
+        return z3.ForAll([x], z3.Select(seen1, x) == z3.Or(z3.Select(seen0, x), x == extra)) if extra is not None else seen1 == seen0
+
+    g = I.ctx.ghost
+    if "sub" in g:  # the entry was treated as a directory
+        if g["sub"] == "empty":
+            return z3.And(z3.BoolVal(len(srcs) == 0), seen_is(None))
+        return z3.And(z3.BoolVal(len(srcs) == 1), seen_is(name))
+    if "crawled" in g:  # a source file was added
+        stem = STEM(name)
+        ok = len(srcs) == 1 and isinstance(srcs[0], SObj)
+        if not ok:
+            return z3.BoolVal(False)
+        b = srcs[0]
+        return z3.And(z3.Not(z3.Select(seen0, stem)), seen_is(stem), I.getattr(b, "path").t == sub, term(I.getattr(b, "module")) == z3.If(z3.Length(g["crawled"][1].t) > 0, g["crawled"][1].t, z3.StringVal("__main__")),
+                      term(I.getattr(b, "base_dir")) == g["crawled"][2].t, g["crawled"][0].t == sub)
+    return z3.And(z3.BoolVal(len(srcs) == 0), seen_is(None))
+
+
+DIR_OV = {
+    "posixpath:join": lambda I, a, k: SStr(JOINP(a[0].t, a[1].t)),
+    "posixpath:splitext": lambda I, a, k: STuple([SStr(STEM(a[0].t)), SStr(SUFFIX(a[0].t))]),
+    "mypy.find_sources:matches_exclude": returns(TBool(), "excluded"), "mypy.modulefinder:matches_exclude": returns(TBool(), "excluded"),
+    "mypy.find_sources:matches_gitignore": returns(TBool(), "gitignored"), "mypy.modulefinder:matches_gitignore": returns(TBool(), "gitignored"),
+    "mypy.find_sources:SourceFinder.find_sources_in_dir@rec": sub_sources_contract,
+    "mypy.find_sources:SourceFinder.crawl_up": crawl_up_contract,
+    "contracts.spec_paths:FakeFsCache.isdir": lambda I, a, k: SBool(ISDIR(a[1].t)),
+}
+
+
 def targets(tier):
     rec = {"mypy.find_sources:SourceFinder._crawl_up_helper@rec": helper_rec_contract, "mypy.find_sources:SourceFinder.crawl_up_dir": crawl_up_dir_contract}
     return [
@@ -181,6 +256,10 @@ def targets(tier):
                note="recursive calls and crawl_up_dir enter through their contracts (induction); InvalidSourceList is the specified answer for an __init__ file in a directory whose name is not an identifier"),
         Target("paths.crawl_up_dir", "mypy.find_sources:SourceFinder.crawl_up_dir", setup_helper, ensures=[("always-a-derivable-package", ens_crawl_up_dir)],
                raises=(FS.InvalidSourceList, AssertionError), overrides=dict(OV, **{"mypy.find_sources:SourceFinder._crawl_up_helper": helper_rec_contract}), field_types=FT),
+        Target("paths.find_sources_in_dir.entry", "mypy.find_sources:SourceFinder.find_sources_in_dir", setup_dir_entry, loop_body=("for name in names", None),
+               ensures=[("entry-adds-exactly-its-sources-and-claims", ens_dir_entry)], raises=(FS.InvalidSourceList,), overrides=DIR_OV,
+               field_types={**FT, ("SourceFinder", "fscache"): TObj(FakeFsCache), ("SourceFinder", "exclude"): TSeq(TStr()), ("SourceFinder", "exclude_gitignore"): TBool()},
+               note="one generic directory entry; the recursive call, crawl_up, the exclusion filters and the file system enter through contracts"),
         Target("paths.crawl_up", "mypy.find_sources:SourceFinder.crawl_up", setup_crawl_up, ensures=[("module-is-package-plus-stem", ens_crawl_up)],
                raises=(FS.InvalidSourceList, AssertionError), overrides=dict(OV, **{"mypy.find_sources:SourceFinder.crawl_up_dir": crawl_up_dir_contract}), field_types=FT),
     ]
